@@ -3,10 +3,11 @@ CONSTANTS
   MaxReasonable = 1048576
   Alphabet = {48, 49, 50, 57, 44, 45}
   MaxLen = 7
+  EmitLen = 6
   SmallMax = 6
   TopoN = 4
-  TopoMs = {0, 1, 2, 3, 4}
-  TopoMaxL2 = 4
+  TopoMs = {0, 1, 2, 3}
+  TopoMaxL2 = 5
 SPECIFICATION Spec
 CHECK_DEADLOCK FALSE
 INVARIANTS ParserOK SetAlgebraSmallOK SetAlgebra1kOK GroupingAlgOK
